@@ -373,7 +373,10 @@ impl Scenario for RtScenario {
                         let mut s = st.borrow_mut();
                         match r {
                             Ok(bytes) => {
-                                let path = if fb > 0 {
+                                let path = if fb > 0 && no_fallback {
+                                    // the configuration says a missed deadline is an error, never a fallback
+                                    "timeout_fallback_although_disabled"
+                                } else if fb > 0 {
                                     "timeout_fallback"
                                 } else if p.len() < 64 && base_mode == CompressionMode::UltraLowLatency {
                                     "tiny_passthrough"
@@ -439,7 +442,9 @@ impl Scenario for RtScenario {
                                     let (p, kind, id) = ps[j].clone();
                                     // the clock is monotone and the batch stops at the first missed
                                     // deadline, so only the last output can come from the fallback
-                                    let path = if fb > 0 && j + 1 == nres {
+                                    let path = if fb > 0 && j + 1 == nres && no_fallback {
+                                        "timeout_fallback_although_disabled"
+                                    } else if fb > 0 && j + 1 == nres {
                                         "timeout_fallback"
                                     } else if fb > 1 {
                                         "unknown_path"
